@@ -398,7 +398,13 @@ example : updateObj tables props0 others0 resetResult.1 none [(.str "colour".toL
 /-! ### rejected operations and the state -/
 
 /-- **a rejected attribute assignment leaves the world unchanged** — whatever is rejected (unknown name, invalid value,
-unknown keys inside an assigned dict, a path that cannot be followed), at any depth, in any state. -/
+unknown keys inside an assigned dict, a path that cannot be followed), at any depth, in any state.
+(audit2) CAVEAT: the statement also covers `e = .shadow`, which is NOT a rejection by the code: the real
+`X._opacity = "bogus"` raises nothing, changes what `X.opacity` reads and can leave a state in which `X.update()` raises;
+for `e = .shadow` this is a statement about the model's convention only (the `sstate` stream undoes the real write
+before it compares).  As a statement about the code read it with `e ≠ .shadow`.
+Generic in `T Cs D`: it follows from the shape of `step` (`(c, .error e)` returns the old sub-tree) and
+`atPath_error_unchanged`, i.e. it is close to the definition of the model; the content is in the `sstate` stream. -/
 theorem rejected_setattr_keeps_world (T : Tables) (Cs : List ClassInfo) (D : Tree) (w : World) (i : Nat) (path : List Key) (name : Key)
     (val : Tree) (e : Kind) (h : (step T Cs D w (.setattr i path name val)).2 = .err e) :
     (step T Cs D w (.setattr i path name val)).1 = w := by
@@ -470,7 +476,12 @@ def opIsReset : Op → Bool
 
 /-- **every rejected operation leaves the world identical** — updates, assignments, `obj.style = …`,
 `display.style.reset()`, reads.  (`defaults.reset()` is excluded here: it is `self.display = None` followed by an update
-and so not all-or-nothing by construction, but it never raises: `reset_restores`.) -/
+and so not all-or-nothing by construction, but it never raises: `reset_restores`.)
+(audit2) Universally quantified over `T Cs D w op` (nothing is restricted to the panel), but for `update` the
+all-or-nothing behaviour is WRITTEN INTO the model (`updateObj` returns `cur` on every error branch, mirroring the
+save / restore of repo fix cea5f08), so this theorem restates the model; what ties it to the code is the `sstate` stream
+(exact `as_dict()` after every rejected operation, rejected multi-key updates generated on purpose).  `e = .shadow` is
+not a rejection by the code, see `rejected_setattr_keeps_world`. -/
 theorem rejected_op_keeps_world (T : Tables) (Cs : List ClassInfo) (D : Tree) (w : World) (op : Op) (hr : opIsReset op = false)
     (e : Kind) (h : (step T Cs D w op).2 = .err e) : (step T Cs D w op).1 = w := by
   cases op with
@@ -827,7 +838,12 @@ def WFW (w : World) : Prop :=
   ∀ (i : Nat) (o : Obj), w[i]? = some o → ∃ c, classes[o.cls]? = some c ∧ wfKids (fixB tables) c.schema.props o.tree = true
 
 /-- computed over the regenerated validator table (22 rows × 86 values): whatever a setter stores, it stores unchanged
-when it is assigned again — None, every panel value, the dict case -/
+when it is assigned again — None, every panel value, the dict case.
+(audit2) This is a fact about the PROBED table (a closed world of 86 values: the hard coded defaults, 31 probe values and
+what the setters store for them; each setter probed on a NEW instance), not about the validators' code: idempotence for
+a value outside the panel (`opacity = 0.37`), and independence of a setter from the object's other properties, are not
+shown here (the `sstate` stream compares after every operation; `values_outside_panel` must be 0 there).
+Not vacuous: `schema_tables_nonvacuous`. -/
 theorem validators_idempotent : idemB tables = true := by
   decide +kernel
 
@@ -964,7 +980,11 @@ theorem wfw_init (cls : List Nat) (hcls : ∀ ci ∈ cls, ci < classes.length) :
 /-- **C20, an invariant of every history (stability's foundation).**  After ANY history of operations — updates in any
 notation with any flags on any sub-object, assignments of values, dicts, None or strings, accepted or rejected, resets —
 every object (the defaults and every style) is well formed: its tree has exactly the class's non-alias properties as
-keys in `dir()` order at every level, and every stored leaf is a value its validator accepts and stores unchanged. -/
+keys in `dir()` order at every level, and every stored leaf is a value its validator accepts and stores unchanged.
+(audit2) "Reachable" = reachable IN THE MODEL from `init cls` (regenerated DEFAULTS, a new style object per entry of
+`cls`) over all seven constructors of `Op`; proved, not assumed.  A history with an operation whose model outcome is
+`shadow` (assignment to a private slot `_opacity`, `__doc__`, …) is outside the tie: the code accepts the write, the
+model leaves the world alone — after `style._opacity = "bogus"` the real state is NOT stable. -/
 theorem reachable_states_wellformed (cls : List Nat) (hcls : ∀ ci ∈ cls, ci < classes.length) :
     ∀ (ops : List Op), WFW (exec tables classes defaults (init cls) ops) := by
   have key : ∀ (ops : List Op) (w : World), WFW w → WFW (exec tables classes defaults w ops) := by
@@ -974,5 +994,83 @@ theorem reachable_states_wellformed (cls : List Nat) (hcls : ∀ ci ∈ cls, ci 
     | cons op t ih => intro w h; rw [exec_cons]; exact ih _ (wfw_step w op h)
   intro ops
   exact key ops _ (wfw_init cls hcls)
+
+/-! ### audit2: guards and applied examples -/
+
+/-- **the regenerated tables are not empty and every validator row is complete** (guards the `decide` theorems of this
+file — `all_nodes_ok`, `initial_states_stable`, `validators_idempotent`, `classes_wellformed` — against an empty or
+truncated table): at least 8 top-level classes (`DefaultSettings` and the style classes), every object class points to
+one of them (not to index 0), at least 20 validator rows, the panel has at least 80 values, every row has an outcome for
+EVERY panel value (so the totalising `getD (.error .other)` of `runV` is reached only by indices outside the panel), and
+the class trees have at least 37 class nodes (counted with repetition) -/
+theorem schema_tables_nonvacuous :
+    classes.length ≥ 8 ∧ objectClasses.all (fun oc => decide (0 < oc.2) && decide (oc.2 < classes.length)) = true ∧
+    tables.leafV.length ≥ 20 ∧ panel.length ≥ 80 ∧ tables.isStr.length = panel.length ∧
+    tables.leafV.all (fun r => r.onVal.length == panel.length) = true ∧
+    (classes.map (fun c => 1 + (nodesL c.schema.props).length)).sum ≥ 37 := by
+  decide +kernel
+
+/-! ### the name theorems APPLIED (every hypothesis instantiated on the regenerated classes) -/
+
+def exStylePath : List Key := [dk, .str "style".toList]
+/-- `magpylib.defaults` at import time, and its class -/
+def exO : Obj := ⟨0, resetResult.1⟩
+def exC : ClassInfo := classes[0]'(by decide)
+
+theorem exC_class : classes[exO.cls]? = some exC := List.getElem?_eq_getElem (by decide)
+
+theorem exO_init : (init [])[0]? = some exO := init_zero []
+
+/-- computed: at import time `defaults.display.style` is a sub-object, and `colour` is neither a property of its class
+nor one of the names its class lets through -/
+theorem exStyle_sub :
+    (match subObj exC.schema.props exC.schema.others exO.tree exStylePath with
+      | some (ps, os, _) => (lookup (.str "colour".toList) ps).isNone && !os.contains "colour".toList
+      | none => false) = true := by
+  decide +kernel
+
+theorem exStyle_sub_elim : ∃ ps os sub, subObj exC.schema.props exC.schema.others exO.tree exStylePath = some (ps, os, sub) ∧
+    lookup (.str "colour".toList) ps = none ∧ os.contains "colour".toList = false := by
+  have h := exStyle_sub
+  cases hs : subObj exC.schema.props exC.schema.others exO.tree exStylePath with
+  | none => rw [hs] at h; cases h
+  | some r =>
+    obtain ⟨ps, os, sub⟩ := r
+    rw [hs] at h
+    simp only [Bool.and_eq_true, Option.isNone_iff_eq_none, Bool.not_eq_true'] at h
+    exact ⟨ps, os, sub, rfl, h.1, h.2⟩
+
+/-- `method_names_rejected`, `setattr_unknown_name_rejected_at` and `update_rejects_every_non_property_name` APPLIED (all
+hypotheses instantiated, two levels down, at import time): `magpylib.defaults.display.style.reset = None`,
+`defaults.display.style.colour = 1`, `defaults.display.style.update(colour=1)` -/
+example : ∃ ps os sub, subObj exC.schema.props exC.schema.others exO.tree exStylePath = some (ps, os, sub) ∧
+    step tables classes defaults (init []) (.setattr 0 exStylePath (.str "reset".toList) (.leaf none)) = (init [], .err .attribute) ∧
+    step tables classes defaults (init []) (.setattr 0 exStylePath (.str "colour".toList) (.leaf (some 8))) = (init [], .err .attribute) ∧
+    ∃ e, updateObj tables ps os sub none [(.str "colour".toList, .leaf (some 8))] true false = (sub, .error e) := by
+  obtain ⟨ps, os, sub, hs, hn, ho⟩ := exStyle_sub_elim
+  exact ⟨ps, os, sub, hs,
+    method_names_rejected (init []) 0 exO exC exStylePath ps os sub "reset".toList (.leaf none) exO_init exC_class hs (by decide),
+    setattr_unknown_name_rejected_at tables classes defaults (init []) 0 exO exC exStylePath ps os sub "colour".toList (.leaf (some 8))
+      exO_init exC_class hs hn ho,
+    update_rejects_every_non_property_name exO exC exC_class exStylePath ps os sub hs "colour".toList (some 8) false hn (by decide)⟩
+
+def outErr : Out → Option Kind
+  | .err e => some e
+  | _ => none
+
+theorem out_of_outErr {x : Out} {e : Kind} (h : outErr x = some e) : x = .err e := by
+  cases x with
+  | ok => cases h
+  | err e' => simp only [outErr, Option.some.injEq] at h; rw [h]
+  | val t => cases h
+
+/-- `defaults.display.update(autosizefactor=5, backend="tail")`: a valid keyword in front of a refused value -/
+def exRejOp : Op :=
+  .update 0 [dk] none [(.str "autosizefactor".toList, .leaf (some 4)), (.str "backend".toList, .leaf (some 41))] true false
+
+/-- `rejected_op_keeps_world` / `rejected_update_keeps_state` APPLIED: the hypothesis (the operation is rejected, here
+with AssertionError) is established by computation, the conclusion is the theorem's -/
+example : (step tables classes defaults (init [1]) exRejOp).1 = init [1] :=
+  rejected_op_keeps_world tables classes defaults (init [1]) exRejOp rfl .assertion (out_of_outErr (by decide +kernel))
 
 end MagpyVerif.C20c
